@@ -503,7 +503,7 @@ func finish(t0 time.Time) {
 
 func main() {
 	seed := flag.Int64("seed", 20260929, "PRNG seed")
-	mode := flag.String("mode", "fault,mutate", "comma separated: fault, mutate, fidelity, tcp, witness (child: internal)")
+	mode := flag.String("mode", "fault,mutate", "comma separated: fault, mutate, fidelity, tcp, broadcast, witness (child: internal)")
 	driverPath := flag.String("driver", "/verif/lean/codec/.lake/build/bin/codecdriver", "Lean model driver")
 	replay := flag.String("replay", "", "replay file (or the JSON of one failure's replay payload)")
 	prop := flag.String("prop", "C14", "property id used in signatures")
@@ -650,6 +650,18 @@ func main() {
 				keys["tcp|"+k] = true
 			}
 			sum.Samples = append(sum.Samples, rep.Samples...)
+			sum.Failures = append(sum.Failures, rep.Failures...)
+		case "broadcast":
+			rep := &broadcastReport{}
+			runBroadcast(rep)
+			sum.Evaluations += rep.Evaluations
+			for k, v := range rep.Hist {
+				bump(sum.Hist, "broadcast", k)
+				sum.Hist["broadcast"][k] += v - 1
+			}
+			for i := 0; i < rep.Hist["burst-ok"]; i++ {
+				keys[fmt.Sprintf("broadcast|%d", i)] = true
+			}
 			sum.Failures = append(sum.Failures, rep.Failures...)
 		case "witness":
 			d, err := startDriver(*driverPath)
